@@ -118,3 +118,34 @@ pub proof fn lemma_head_skip()
     }
 }
 
+
+// ---- byte offsets into a str (what `s.len()`, `char_indices()` and `&s[a..b]` speak about)
+pub open spec fn blen(s: Seq<char>) -> int { encode_utf8(s).len() as int }
+/// `a` is a char boundary of s: the byte length of some prefix
+pub open spec fn boundary(s: Seq<char>, a: int) -> bool { exists|k: int| 0 <= k <= s.len() && #[trigger] blen(s.take(k)) == a }
+#[verifier::external_body]
+pub fn __str_len(s: &str) -> (r: usize) ensures r == blen(s@) { s.len() }
+#[verifier::external_body]
+pub fn __char_len_utf8(c: char) -> (r: usize) ensures r == blen(seq![c]), 1 <= r <= 4 { c.len_utf8() }
+/// `&s[a..b]`: Rust panics unless a <= b and both are char boundaries; then it is the chars between them
+#[verifier::external_body]
+pub fn __str_slice<'a>(s: &'a str, a: usize, b: usize) -> (r: &'a str)
+    requires a <= b, boundary(s@, a as int), boundary(s@, b as int),
+    ensures forall|ka: int, kb: int| 0 <= ka <= kb <= s@.len() && #[trigger] blen(s@.take(ka)) == a && #[trigger] blen(s@.take(kb)) == b ==> r@ == s@.subrange(ka, kb),
+{ &s[a..b] }
+#[verifier::external_body]
+pub fn __str_slice_from<'a>(s: &'a str, a: usize) -> (r: &'a str)
+    requires boundary(s@, a as int),
+    ensures forall|ka: int| 0 <= ka <= s@.len() && #[trigger] blen(s@.take(ka)) == a ==> r@ == s@.skip(ka),
+{ &s[a..] }
+/// a str never exceeds isize::MAX bytes
+#[verifier::external_body]
+pub proof fn axiom_str_fits(s: &str) ensures blen(s@) <= usize::MAX {}
+pub proof fn lemma_blen_push(s: Seq<char>, c: char) ensures blen(s.push(c)) == blen(s) + blen(seq![c]) {
+    encode_utf8_concat(s, seq![c]);
+    assert(s + seq![c] =~= s.push(c));
+}
+pub proof fn lemma_blen_ascii(c: char) requires (c as u32) < 128 ensures blen(seq![c]) == 1 {
+    assert(is_ascii_chars(seq![c]));
+    is_ascii_chars_encode_utf8(seq![c]);
+}
